@@ -53,6 +53,150 @@ PROPS["C01"] = dict(
                  "Desc::new stubbed (descriptor not the subject)"],
 )
 
+
+PROPS["C11"] = dict(
+    hosts={"root": ["c11.rs"]},
+    cfgs=["prometheus_verif_sync"],
+    env={"PROMETHEUS_VERIF_K": "3"},
+    jobs=6,
+    harnesses={
+        "c11_int_2x2_symbolic_ops": dict(cap=1200),
+        "c11_float_add_get_vs_set_sub": dict(cap=1200),
+        "c11_float_inc_dec_vs_add_sub": dict(cap=1200),
+        "c11_float_sub_is_add_neg": dict(cap=600),
+    },
+    functions=["AtomicF64::set/get/inc_by/dec_by", "AtomicI64::set/get/inc_by/dec_by", "Value::set/inc/dec/inc_by/dec_by/get", "GenericGauge::set/inc/dec/add/sub/get"],
+    bounds="2 threads x 2 operations, K = 3 rounds, operands integers in [-4, 4] (exact in f64); sequential law over all f64 bit patterns; unwind 6",
+    outside="3 threads; more than 2 pre-emptions per thread; a torn 64-bit store cannot be expressed against an atomic 64-bit API",
+    assumptions=["shared atomics replaced by crate::verif_sync (Lal-Reps K-version cells)", "linearizability oracle = disjunction over the 6 interleavings of two 2-operation sequences, with (round, thread) real-time order", "Desc::new stubbed"],
+)
+
+
+PROPS["C09"] = dict(
+    hosts={"desc": ["c09.rs"]},
+    cfgs=["prometheus_verif_map"],
+    jobs=6,
+    harnesses={
+        "c09_metric_name_regex_3chars": dict(cap=900),
+        "c09_label_name_regex_3chars": dict(cap=900),
+        "c09_desc_new_checks_names": dict(cap=1200),
+        "c09_desc_new_rejects_duplicate_label_names": dict(cap=1200),
+        "c09_histogram_rejects_le": dict(cap=1200),
+    },
+    functions=["desc::is_valid_metric_name", "desc::is_valid_label_name", "desc::is_valid_ident", "Desc::new", "histogram::check_bucket_label", "HistogramCore::new"],
+    bounds="names of <= 3 arbitrary Unicode scalar values (unit level), <= 2 in Desc::new; label-name pools of 6 names; <= 1 const + 2 variable labels",
+    outside="longer names; more labels",
+    assumptions=["std::fmt::format stubbed in Desc::new harnesses (error text only)", "const-label map is crate::verif_map (abstract finite map) via cfg(prometheus_verif_map)"],
+)
+
+
+PROPS["C05"] = dict(
+    hosts={"vec": ["c05.rs"], "counter": ["c05b.rs"]},
+    cfgs=["prometheus_verif_map"],
+    jobs=6,
+    harnesses={
+        "c05_slice_form_child_key_injective": dict(cap=900),
+        "c05_map_form_matches_slice_form": dict(cap=1200),
+        "c05_wrong_cardinality_is_an_error": dict(cap=1200),
+        "c05_wrong_names_are_an_error": dict(cap=1200),
+        "c05_get_or_create_two_requests": dict(cap=2400),
+        "c05_child_exposes_values_with_const_labels": dict(cap=1200),
+    },
+    functions=["MetricVecCore::hash_label_values", "MetricVecCore::hash_labels", "MetricVecCore::get_label_values", "MetricVecCore::get_metric_with_label_values",
+               "MetricVecCore::get_metric_with", "MetricVecCore::get_or_create_metric", "value::make_label_pairs", "Value::new", "GenericCounter::inc/get/metric"],
+    bounds="2 declared labels; label values = symbolic strings of 0..=2 bytes (ASCII or one 2-byte UTF-8 scalar), 0..=1 byte in the get-or-create harness; two requests; unwind 5",
+    outside="longer values, more labels; collisions of the real 64-bit FNV-1a (the property is stated up to them)",
+    assumptions=["E4: FnvHasher::write replaced by an injective packing of the byte stream (<= 7 bytes), so hash equality == stream equality",
+                 "E6: the children map and the label map are crate::verif_map (abstract finite map)", "Desc::new stubbed (keeps variable labels and const pairs)",
+                 "parking_lot slow paths stubbed to assume(false) (unreachable sequentially; avoids a Kani ICE)"],
+)
+
+
+PROPS["C06"] = dict(
+    hosts={"registry": ["c06.rs"]},
+    cfgs=["prometheus_verif_map"],
+    jobs=6,
+    harnesses={
+        "c06_refused_registration_leaves_no_trace": dict(cap=1200),
+        "c06_unregister_then_reregister_gather": dict(cap=1800),
+        "c06_history_3ops": dict(cap=2400),
+        "c06_history_4ops": dict(cap=5400, tier="thorough"),
+    },
+    functions=["RegistryCore::register", "RegistryCore::unregister", "RegistryCore::gather"],
+    bounds="histories of 3 (quick) / 4 (thorough) register|unregister calls over a pool of 4 collectors (3 single-descriptor, 1 two-descriptor) whose descriptor ids (3 values), dimension hashes (2) and names (2) are symbolic; residue scenario with fully symbolic 64-bit ids and dimension hashes; unwind 6",
+    outside="longer histories, larger pools, collectors with duplicate descriptors inside one collector; collisions of the collector id (sum of descriptor ids)",
+    assumptions=["E6: registry maps are crate::verif_map (abstract finite map)", "std::fmt::format stubbed (error text)", "RegistryCore driven directly (no RwLock); Registry::{register,unregister,gather} are one-line delegations under the lock"],
+)
+
+
+PROPS["C18"] = dict(
+    hosts={"histogram": ["c18.rs"]},
+    jobs=6,
+    harnesses={
+        "c18_shared_one_timer": dict(cap=2400),
+        "c18_shared_two_timers": dict(cap=3600, tier="thorough"),
+        "c18_local_timer": dict(cap=2400),
+        "c18_observe_closure_duration": dict(cap=2400),
+    },
+    functions=["HistogramTimer::{new, observe_duration, stop_and_record, stop_and_discard, observe, drop}", "LocalHistogramTimer::{new, observe_duration, stop_and_record, stop_and_discard, observe, drop}",
+               "histogram::Instant::{now, elapsed, elapsed_sec}", "Histogram::{start_timer, observe_closure_duration, observe, local}", "LocalHistogram::{start_timer, observe_closure_duration, clone, drop, flush}", "LocalHistogramCore::{observe, flush, clear}"],
+    bounds="2 shared timers or 1 local timer, each ended in one of 4 ways chosen symbolically, symbolic end order; clock readings arbitrary (seconds < 1000, any nanoseconds, not necessarily monotone); 1 bucket; unwind 5",
+    outside="more timers; moving a timer to another thread (the timer holds no thread-local state: stated, not checked); the coarse (nightly) clock",
+    assumptions=["std::time::Instant::now stubbed by arbitrary instants (transmuted (secs, nanos); the harness asserts size_of::<Instant>() == 16)", "histogram core constructed directly (1 bucket)"],
+)
+
+
+PROPS["C12"] = dict(
+    hosts={"histogram": ["c12.rs"]},
+    jobs=6,
+    harnesses={
+        "c12_int_counter_two_locals_two_ops": dict(cap=1800),
+        "c12_float_counter_flush_twice": dict(cap=1800),
+        "c12_local_histogram_one_op": dict(cap=2400),
+    },
+    functions=["GenericLocalCounter::{inc_by, inc, get, reset, flush, clone}", "GenericCounter::{inc_by, reset, get, local}", "LocalHistogramCore::{observe, clear, flush}",
+               "LocalHistogram::{observe, flush, clear, clone, drop, get_sample_count, get_sample_sum}", "HistogramCore::{observe, proto, sample_sum, sample_count}"],
+    bounds="counter: arbitrary state (shared < 2^60, two local handles with pending < 2^60) then 2 operations chosen symbolically out of 9; histogram: 0-2 pending observations (any f64) then 1 operation out of 5 (flush twice, clear, clone+drop, direct observe, drop); 1 bucket; unwind 4",
+    outside="longer histories (the state reached by any history is covered by the arbitrary-state construction for counters); vector forms LocalCounterVec / LocalHistogramVec (their per-child caches are plain maps of the local handles checked here)",
+    assumptions=["Desc::new stubbed", "histogram core constructed directly (1 bucket)"],
+)
+
+
+PROPS["C15"] = dict(
+    hosts={"desc": ["c15.rs"]},
+    cfgs=["prometheus_verif_map"],
+    jobs=4,
+    harnesses={
+        "c15_id_name_value_boundary": dict(cap=2400),
+        "c15_id_two_const_labels_order_independent": dict(cap=2400),
+        "c15_dim_hash_structural": dict(cap=2400),
+    },
+    functions=["Desc::new (id and dim_hash computation, const label pair sorting)", "desc::is_valid_metric_name", "desc::is_valid_label_name"],
+    bounds="metric name 1..=2 bytes and one const-label value 0..=2 bytes (ASCII, symbolic); two const labels with 1-byte symbolic values in both insertion orders and every map iteration order; help 1 symbolic lowercase letter; variable-label lists from {[], [x], [y], [x,y], [y,x]}; hashed streams <= 8 bytes; unwind 6",
+    outside="longer strings, more labels, non-ASCII values in this harness; collisions of the real 64-bit FNV-1a (the property is stated up to them)",
+    assumptions=["E4: FnvHasher::write replaced by an injective packing of the byte stream", "E6: const-label map is crate::verif_map with symbolic iteration order", "std::fmt::format stubbed (error text)"],
+)
+
+
+PROPS["C02"] = dict(
+    hosts={"histogram": ["c02.rs"]},
+    cfgs=["prometheus_verif_sync"],
+    env={"PROMETHEUS_VERIF_K": "2"},
+    jobs=3,
+    mem_gb=40,
+    harnesses={
+        "c02_s1_observe_vs_collect": dict(cap=3600),
+        "c02_s2_two_observes_prefix_closed": dict(cap=7200, tier="thorough"),
+        "c02_s3_two_observers_vs_collect": dict(cap=7200, tier="thorough"),
+        "c02_s4_two_collectors": dict(cap=7200, tier="thorough"),
+    },
+    functions=["HistogramCore::observe", "HistogramCore::proto", "ShardAndCount::{inc, inc_by, flip, get}", "AtomicU64::{inc_by, inc_by_with_ordering, swap, compare_exchange_weak}", "AtomicF64::{inc_by, swap}"],
+    bounds="K rounds (see env PROMETHEUS_VERIF_K), 2-3 threads, observations in {0,1,2,3}, 1-2 buckets, unwind 6",
+    outside="more pre-emptions than K-1 per thread; more threads; weak-memory behaviours (see E5)",
+    assumptions=["shared atomics and the collect mutex replaced by crate::verif_sync (Lal-Reps K-version cells)", "histogram core constructed directly"],
+)
+
+
 # ------------------------------------------------------------------------------------------------
 MANIFEST_TEXT = {}
 MANIFEST_TEXT["C08"] = dict(
